@@ -4,7 +4,6 @@ use crate::util::*;
 use ohkami::prelude::*;
 use ohkami::fang::CORS;
 use ohkami::testing::Testing;
-use ohkami::__verif::Routing;
 use serde_json::{json, Value};
 
 fn strs(v: &Value) -> Option<Vec<&'static str>> {
@@ -24,8 +23,7 @@ pub fn run_case(c: &Value) -> Value {
     let built = std::panic::catch_unwind(std::panic::AssertUnwindSafe(|| {
         // the root application: the CORS fang, then the items of the case's root
         let mut oh = Ohkami::with((cors,), ());
-        let root = apps::build(&json!({"fangs": [], "items": c["app"]["items"]}));
-        Routing::apply(root, &mut oh);
+        apps::apply_items(&c["app"], &mut oh);
         oh.test()
     }));
     let t = match built { Ok(t) => t, Err(e) => return json!({"build": "refused", "why": panic_msg(e)}) };
